@@ -124,5 +124,16 @@ pub use crate::{
 
 /// Alias for `World` for easier migration to the new version. Will be removed
 /// in the future.
+/// Verification hook (feature `verif-hooks`): callback invoked at the hand-over points of the
+/// async dispatcher. `None` by default.
+#[cfg(feature = "verif-hooks")]
+pub static VERIF_POINT: std::sync::RwLock<Option<fn(&'static str)>> = std::sync::RwLock::new(None);
+
+/// Verification hook (feature `verif-hooks`): install / remove the callback.
+#[cfg(feature = "verif-hooks")]
+pub fn verif_set_point(f: Option<fn(&'static str)>) {
+    *VERIF_POINT.write().unwrap() = f;
+}
+
 #[deprecated(since = "0.8.0", note = "renamed to `World`")]
 pub type Resources = World;
